@@ -13,7 +13,7 @@ use std::sync::{mpsc, Arc, Barrier, LazyLock};
 use std::time::{Duration, Instant};
 
 use reed_solomon_simd::engine::{tables, Avx2, DefaultEngine, Engine, Naive, NoSimd, Ssse3};
-use reed_solomon_simd::rate::{DefaultRateDecoder, DefaultRateEncoder, HighRateEncoder, LowRateEncoder, RateDecoder, RateEncoder};
+use reed_solomon_simd::rate::{DefaultRateDecoder, DefaultRateEncoder, HighRateDecoder, HighRateEncoder, LowRateDecoder, LowRateEncoder, RateDecoder, RateEncoder};
 use reed_solomon_simd::{ReedSolomonDecoder, ReedSolomonEncoder};
 
 use crate::ctx::{Case, Ctx};
@@ -286,6 +286,94 @@ pub fn child_churn(seed: u64, threads: usize) {
     if bad.is_empty() { println!("OK churn {}", threads); } else { println!("FAIL {} of {} churning threads failed: {}", bad.len(), threads, bad[0]); std::process::exit(1); }
 }
 
+/// one thread's work in `child_engines`: its own engine, its own dedicated-rate encoder and decoder, whole rounds on
+/// shards of several KiB for about a second, every result compared with the sequential reference
+fn engine_rounds<E: Engine + 'static>(mk: fn() -> E, high: bool, k: usize, r: usize, sb: usize, originals: &[Vec<u8>], rec: &[Vec<u8>], deadline: Instant, t: usize) -> Result<usize, String> {
+    let mut n = 0usize;
+    while Instant::now() < deadline {
+        n += 1;
+        let got: Vec<Vec<u8>> = if high {
+            let mut e = HighRateEncoder::new(k, r, sb, mk(), None).map_err(|e| format!("{:?}", e))?;
+            for o in originals { e.add_original_shard(o).map_err(|e| format!("{:?}", e))?; }
+            let x = e.encode().map_err(|e| format!("{:?}", e))?.recovery_iter().map(|s| s.to_vec()).collect(); x
+        } else {
+            let mut e = LowRateEncoder::new(k, r, sb, mk(), None).map_err(|e| format!("{:?}", e))?;
+            for o in originals { e.add_original_shard(o).map_err(|e| format!("{:?}", e))?; }
+            let x = e.encode().map_err(|e| format!("{:?}", e))?.recovery_iter().map(|s| s.to_vec()).collect(); x
+        };
+        if got != rec { return Err(format!("thread {} round {}: recovery shards of {}:{} ({} bytes, {}) differ from the sequential reference", t, n, k, r, sb, std::any::type_name::<E>())); }
+        let miss = k.min(r);
+        let restored: Vec<(usize, Vec<u8>)> = if high {
+            let mut d = HighRateDecoder::new(k, r, sb, mk(), None).map_err(|e| format!("{:?}", e))?;
+            for i in miss..k { d.add_original_shard(i, &originals[i]).map_err(|e| format!("{:?}", e))?; }
+            for j in 0..miss { d.add_recovery_shard(j, &rec[j]).map_err(|e| format!("{:?}", e))?; }
+            let x = d.decode().map_err(|e| format!("{:?}", e))?.restored_original_iter().map(|(i, s)| (i, s.to_vec())).collect(); x
+        } else {
+            let mut d = LowRateDecoder::new(k, r, sb, mk(), None).map_err(|e| format!("{:?}", e))?;
+            for i in miss..k { d.add_original_shard(i, &originals[i]).map_err(|e| format!("{:?}", e))?; }
+            for j in 0..miss { d.add_recovery_shard(j, &rec[j]).map_err(|e| format!("{:?}", e))?; }
+            let x = d.decode().map_err(|e| format!("{:?}", e))?.restored_original_iter().map(|(i, s)| (i, s.to_vec())).collect(); x
+        };
+        if restored.len() != miss || restored.iter().any(|(i, s)| *s != originals[*i]) {
+            return Err(format!("thread {} round {}: restored originals of {}:{} ({} bytes, {}) differ", t, n, k, r, sb, std::any::type_name::<E>()));
+        }
+    }
+    Ok(n)
+}
+
+/// child: `threads` threads, each with ITS OWN engine of one of the four x86 families (chosen by thread number) and its
+/// own dedicated-rate codecs, running whole rounds on shards of 2 .. 8 KiB at the same time (what an engine keeps
+/// outside its own object would be shared here)
+pub fn child_engines(seed: u64, threads: usize) {
+    let mut rng = Prng::new(seed);
+    let cfgs: Vec<(bool, usize, usize, usize)> = vec![(true, 12, 6, 4096), (false, 5, 12, 2048 + 64 * rng.range(0, 40)), (true, 20, 9, 8192), (false, 3, 20, 6144)];
+    let avx2 = std::arch::is_x86_feature_detected!("avx2");
+    let ssse3 = std::arch::is_x86_feature_detected!("ssse3");
+    let mut refs = vec![];
+    for (high, k, r, sb) in cfgs.iter().cloned() {
+        let originals: Vec<Vec<u8>> = (0..k).map(|_| rng.bytes(sb)).collect();
+        let rec: Vec<Vec<u8>> = if high {
+            let mut e = HighRateEncoder::new(k, r, sb, Naive::new(), None).unwrap();
+            for o in &originals { e.add_original_shard(o).unwrap(); }
+            let x = e.encode().unwrap().recovery_iter().map(|s| s.to_vec()).collect(); x
+        } else {
+            let mut e = LowRateEncoder::new(k, r, sb, Naive::new(), None).unwrap();
+            for o in &originals { e.add_original_shard(o).unwrap(); }
+            let x = e.encode().unwrap().recovery_iter().map(|s| s.to_vec()).collect(); x
+        };
+        refs.push((originals, rec));
+    }
+    let refs = Arc::new(refs);
+    let cfgs = Arc::new(cfgs);
+    let barrier = Arc::new(Barrier::new(threads));
+    let deadline = Instant::now() + Duration::from_millis(1200);
+    let mut hs = vec![];
+    for t in 0..threads {
+        let (refs, cfgs, barrier) = (refs.clone(), cfgs.clone(), barrier.clone());
+        hs.push(std::thread::spawn(move || -> Result<usize, String> {
+            barrier.wait();
+            let (high, k, r, sb) = cfgs[(t / 4) % cfgs.len()];
+            let (originals, rec) = &refs[(t / 4) % cfgs.len()];
+            // half of the threads run NoSimd (the engine every machine can fall back to), the others rotate
+            match t % 4 {
+                0 | 2 => engine_rounds(NoSimd::new, high, k, r, sb, originals, rec, deadline, t),
+                1 => if avx2 { engine_rounds(Avx2::new, high, k, r, sb, originals, rec, deadline, t) } else { engine_rounds(NoSimd::new, high, k, r, sb, originals, rec, deadline, t) },
+                _ => if ssse3 { engine_rounds(Ssse3::new, high, k, r, sb, originals, rec, deadline, t) } else { engine_rounds(Naive::new, high, k, r, sb, originals, rec, deadline, t) },
+            }
+        }));
+    }
+    let mut bad = vec![];
+    let mut rounds = 0;
+    for (t, h) in hs.into_iter().enumerate() {
+        match h.join() {
+            Ok(Ok(n)) => rounds += n,
+            Ok(Err(e)) => bad.push(e),
+            Err(_) => bad.push(format!("thread {} panicked", t)),
+        }
+    }
+    if bad.is_empty() { println!("OK engines {} threads {} rounds", threads, rounds); } else { println!("FAIL {} of {} threads: {}", bad.len(), threads, bad[0]); std::process::exit(1); }
+}
+
 /// a shard whose bytes are produced by a complete, independent coding round at the moment the library asks for them
 struct NestedShard(Vec<u8>);
 impl AsRef<[u8]> for NestedShard {
@@ -531,6 +619,19 @@ pub fn run(ctx: &mut Ctx) {
                 Ok(s) => ctx.oracle_fail(format!("independent codecs created / dropped concurrently misbehave: {}", s), &case, None),
                 Err(e) => ctx.oracle_fail(format!("concurrent churn run failed: {}", e), &case, None),
             }
+        }
+    }
+    // every engine family at once, each thread with its own engine and dedicated-rate codecs, shards of several KiB
+    let n_eng = if ctx.thorough() { 12 } else { 3 };
+    for _ in 0..n_eng {
+        let sd = ctx.rng.next_u64();
+        ctx.evaluations += 1;
+        ctx.distinct.insert(sd);
+        let case = Case { name: format!("engines seed={} threads=16", sd), lines: vec![format!("rsharness c16-engines {} 16", sd)], with_model: false };
+        match run_child(&["c16-engines".into(), sd.to_string(), "16".into()], Duration::from_secs(120)) {
+            Ok(s) if s.starts_with("OK") => { ctx.count("engines", "processes_ok"); }
+            Ok(s) => ctx.oracle_fail(format!("independent engines / codecs used concurrently differ from sequential use: {}", s), &case, None),
+            Err(e) => ctx.oracle_fail(format!("concurrent engines run failed: {}", e.chars().take(300).collect::<String>()), &case, None),
         }
     }
     // nested / pipelined independent uses (a lock held across the caller's iterator or `as_ref` deadlocks here)
